@@ -9,11 +9,11 @@ SIM = "deterministic simulation with fault injection: "
 TRUST = "trusts: the simulated OS socket model for the behaviours socket.rs relies on; the reference models named in the evidence assumptions; "
 claimed = {
  "C01": ("exploration", "hostile-server simulation: seeded reply scripts x entry points x settings; panic / abort / hang oracle with process watchdog",
-         "Seeded search over hostile reply scripts (damaged valid replies, header + random bytes, random bytes; io errors, short writes, TCP segmentation) consumed by the real conversation of every public entry point on a simulated OS and network; a multi-process runner catches aborts, stack overflows and CPU hangs. The space of reply scripts is unbounded, so a clean batch is evidence, not proof.",
+         "Seeded search over hostile reply scripts (damaged valid replies, damaged recordings of what a reference-model server really sent in a valid conversation of the same call, contradictory index / count / last-packet fields across a multi-packet reply, header + random bytes, random bytes, bzip2 and gzip bombs, abusive HTTP framing served to the real HTTP client; io errors, short writes, TCP segmentation) consumed by the real conversation of every public entry point on a simulated OS and network; a multi-process runner catches aborts, stack overflows and CPU hangs. The space of reply scripts is unbounded, so a clean batch is evidence, not proof.",
          "4.C01", TRUST + "finite read timeouts; every crate built with overflow-checks=on"),
  "C02": ("exploration", "fault-free simulation against a spec-derived reference-model A2S server; field-for-field equality with differential attribution",
-         "Seeded search over server states in the specification's domain and transport encodings (0-3 challenge rounds, Source / GoldSrc split with random fragment boundaries, the protocol-7 size-field quirk) against a reference-model A2S server written from the Valve wiki; the oracle is field-for-field equality of valve::query and of the per-game response, with differential re-runs attributing a failure to decoding or to transport.",
-         "4.C02", TRUST + "bzip2-compressed split replies are not generated (no encoder offline)"),
+         "Seeded search over server states in the specification's domain and transport encodings (0-3 challenge rounds, Source / GoldSrc split with random fragment boundaries, bzip2-compressed split from a python-built pool, answer ids over the whole 31-bit range, the protocol-7 size-field quirk) against a reference-model A2S server written from the Valve wiki; the oracle is field-for-field equality of valve::query and of the per-game response, with differential re-runs attributing a failure to decoding or to transport.",
+         "4.C02", TRUST + "compressed split replies come from a pool built by python3 bz2 (no bzip2 encoder offline in Rust); the model checks that its own encoding of the pool state is byte-identical to what python compressed"),
  "C03": ("exploration", "simulated Minecraft host speaking each of the 32 variant subsets; exact status, auto-detect order and probe log oracle",
          "All 32 subsets of {Java, Bedrock, 1.6, 1.4, b1.8} a host may speak are enumerated against 12 entry points; status values, the manifestation of unspoken variants (silent, close, garbage, wrong variant, refused / black-holed TCP) and TCP segmentation are drawn from the seed; oracle: exact status, first answering variant and its label, AutoQuery iff none answers, and the probe sequence read from the connection log.",
          "4.C03", TRUST + "wiki.vg formats; legacy request literals code-derived"),
@@ -21,14 +21,14 @@ claimed = {
          "Seeded search over GameSpy 1/2/3 server states and transports (GS1 1-7 parts, GS3 challenge handshake and 1-7 splitnum packets with continuation offsets) against reference-model servers; oracle: every named field, every player and team, unused entries exactly the rest, query_vars exactly the pairs sent.",
          "4.C04", TRUST + "formats reference-derived (node-gamedig / public descriptions)"),
  "C05": ("exploration", "fault-free simulation against a reference-model Quake status server",
-         "Seeded search over Quake 1/2/3 status replies (either key spelling, 0-64 player lines, quoted / unquoted names, optional address) against a reference-model server; oracle: named variables, one player per line with its fields, online count == lines, everything else in unused entries.",
-         "4.C05", TRUST + "names containing spaces are a separately signed sub-domain"),
+         "Seeded search over Quake 1/2/3 status replies (either key spelling or both, 0-64 player lines and up to 200 in replies far above the MTU, quoted / unquoted names, names with spaces, names with a quote of their own at an edge, optional address) against a reference-model server; oracle: named variables, one player per line with its fields, online count == lines, everything else in unused entries.",
+         "4.C05", TRUST + "a double quote inside a name only at its edges and without spaces (the engines do not allow quotes in names at all)"),
  "C06": ("exploration", "fault-free simulation against a reference-model Unreal 2 server; every length-byte value swept in both encodings",
          "Every length-byte value 0-255 is swept at 5 string positions in both encodings (incl. 0x1b, the UCS-2 flag and the stray 0x01 byte), the rest of the state (colour escapes, control codes, 1-6 datagrams per list, repeated keys, bots) is drawn from the seed; oracle: numeric fields exact, strings exactly as sent minus colour/control codes, rules multimap, mutator set, every player once, bot iff ping 0.",
          "4.C06", TRUST + "string format per node-gamedig readUnrealString; 0x7f-0x9f not generated"),
- "C07": ("exploration", "fault-free simulation against models of the seven single-game protocols (Eco at the HttpClient seam)",
+ "C07": ("exploration", "fault-free simulation against models of the seven single-game protocols (Eco over a real HTTP/1.1 exchange through the vendored HTTP client, and at the HttpClient seam)",
          "Seeded search over well-formed replies of Frontlines, Savage 2, JC2M, Mindustry, The Ship, Battalion 1944 and Eco; oracle: field-for-field equality with the model incl. Battalion override rules and reported-vs-listed player counts.",
-         "4.C07", TRUST + "FFOW, Savage 2, JC2M player block and Eco JSON are code-derived golden layouts; ureq is not executed"),
+         "4.C07", TRUST + "FFOW, Savage 2, JC2M player block and Eco JSON are code-derived golden layouts; the HTTP client is ureq 2.12.1 with its TcpStream and Instant swapped for the simulator's (vendor/ureq)"),
  "C08": ("fault_enumeration", "enumeration of network delivery schedules: all permutations of 2-5 fragments (200 sampled at 6) and every single duplication, vs in-order delivery",
          "For each multi-datagram response (Valve Source / GoldSrc split, GameSpy 1 parts, GameSpy 3 splitnum packets, Unreal 2 lists) the simulated network delivers the same fragments in every order (exhaustive for n <= 5, 200 sampled orders at n = 6) and with every single-fragment duplication at every position; oracle: equal to the in-order result (duplication: equal or an error).",
          "4.C08", TRUST + "in-order decoding is owned by C02/C04/C06 (cases whose baseline fails are skipped and counted)"),
@@ -71,7 +71,7 @@ m = {
     "setup_cmd": "./check --build",
     "hooks": {
         "guard": "--cfg gamedig_verif (rustc cfg flag; no cargo feature, Cargo.toml and Cargo.lock untouched)",
-        "enable": "RUSTFLAGS=--cfg gamedig_verif through /verif/gdsim/.cargo/config.toml (and /verif/clisim); both crates depend on /repo/crates/lib by path, so every check rebuilds gamedig from /repo's working tree",
+        "enable": "RUSTFLAGS=--cfg gamedig_verif through /verif/gdsim/.cargo/config.toml (and /verif/clisim); both crates depend on /repo/crates/lib by path, so every check rebuilds gamedig from /repo's working tree. Outside /repo: the two simulator crates patch the dependency ureq to /verif/vendor/ureq (ureq 2.12.1 with std::net::TcpStream and std::time::Instant swapped for /verif/vendor/verif_net); /repo's Cargo.toml and Cargo.lock are untouched",
         "baseline_off_cmd": "cd /repo && (cargo nextest run --workspace --no-fail-fast --test-threads 8 --offline || cargo test --workspace --no-fail-fast --offline)",
         "source_commits": hook_commits,
         "add_only": True,
